@@ -777,7 +777,7 @@ class C03Check(StreamCheckBase):
                     e["rows"] = rows
                 inj.append(e)
         sc["injections"] = sorted(inj, key=lambda e: (e["at"], e["slot"] != "pre"))
-        if f.chance(0.08):
+        if getattr(self, "allow_unseeded", True) and f.chance(0.08):
             # random_state=None: the subject draws from numpy's process-global generator, which is then part of
             # the state that only update may advance; another user of that generator draws once per chunk
             def unseed(spec):
